@@ -163,6 +163,53 @@ impl Loop {
     }
 }
 
+/// Verification hook (compiled only with `--cfg icy_engine_verif`): read-only view of the command lexer.
+#[cfg(icy_engine_verif)]
+pub struct VerifSnapshot {
+    /// "Default", "GotIgsStart", "ReadCommandStart", "SkipNewLine" or "ReadCommand"
+    pub state: &'static str,
+    /// command being read in state `ReadCommand` (its `Debug` name)
+    pub command: Option<String>,
+    pub parsed_numbers: Vec<i32>,
+    pub parsed_string: String,
+    /// "Start", "ReadCommand", "ReadCount" or "ReadParameter"
+    pub loop_state: &'static str,
+    pub loop_cmd: char,
+    pub loop_parameters: Vec<Vec<String>>,
+    pub got_double_colon: bool,
+    /// (i, from, to, step, delay) of the loop being executed
+    pub cur_loop: Option<(i32, i32, i32, i32, i32)>,
+}
+
+#[cfg(icy_engine_verif)]
+impl Parser {
+    pub fn verif_snapshot(&self) -> VerifSnapshot {
+        let (state, command) = match &self.state {
+            State::Default => ("Default", None),
+            State::GotIgsStart => ("GotIgsStart", None),
+            State::ReadCommandStart => ("ReadCommandStart", None),
+            State::SkipNewLine => ("SkipNewLine", None),
+            State::ReadCommand(c) => ("ReadCommand", Some(format!("{c:?}"))),
+        };
+        VerifSnapshot {
+            state,
+            command,
+            parsed_numbers: self.parsed_numbers.clone(),
+            parsed_string: self.parsed_string.clone(),
+            loop_state: match self.loop_state {
+                LoopState::Start => "Start",
+                LoopState::ReadCommand => "ReadCommand",
+                LoopState::ReadCount => "ReadCount",
+                LoopState::ReadParameter => "ReadParameter",
+            },
+            loop_cmd: self.loop_cmd,
+            loop_parameters: self.loop_parameters.clone(),
+            got_double_colon: self.got_double_colon,
+            cur_loop: self.cur_loop.as_ref().map(|l| (l.i, l.from, l.to, l.step, l.delay)),
+        }
+    }
+}
+
 impl Parser {
     pub fn new(command_executor: Arc<Mutex<Box<dyn CommandExecutor>>>) -> Self {
         Self {
